@@ -935,6 +935,7 @@ package fs
 //@   tags C04,C10
 //@   requires wfEnc(e) && sector >= 0
 //@   modifies elems(e.iv)
+//@   update decsec = mapset(decsec, sector, decsec[sector] + 1)
 //@   ensures m != nil && wfEnc(e)
 //@   ensures[C10] !clone ==> e.iv[12] * 16777216 + e.iv[13] * 65536 + e.iv[14] * 256 + e.iv[15] == sector @iv-holds-sector
 
@@ -953,10 +954,17 @@ package fs
 //@   modifies elems(data), elems(e.iv)
 //@   ensures wfEnc(e)
 //@   ensures forall x {raw(data, x)} :: x < base(data) || x >= base(data) + len(data) ==> raw(data, x) == old(raw(data, x)) @frame
+//@   ensures[C10] forall y, i {at(e.encryptedRegions, y).start, decsec[i]} :: base(e.encryptedRegions) <= y && y < end(e.encryptedRegions) && at(e.encryptedRegions, y).start <= i && i < at(e.encryptedRegions, y).end && (start <= 2048 * i && 2048 * i + 2048 <= start + len(data)) ==> decsec[i] > old(decsec[i]) @every-whole-sector-of-every-encrypted-region-is-decrypted
+//@   ensures[C10] forall i {decsec[i]} :: decsec[i] != old(decsec[i]) ==> (start <= 2048 * i && 2048 * i + 2048 <= start + len(data)) @only-whole-sectors-inside-the-buffer-are-decrypted
 //@   loop 1 invariant wfEnc(e) @wf
 //@   loop 1 invariant forall x {raw(data, x)} :: x < base(data) || x >= base(data) + len(data) ==> raw(data, x) == old(raw(data, x)) @frame
+//@   loop 1 invariant forall y, i {at(e.encryptedRegions, y).start, decsec[i]} :: base(e.encryptedRegions) <= y && y < base(e.encryptedRegions) + $idx && at(e.encryptedRegions, y).start <= i && i < at(e.encryptedRegions, y).end && (start <= 2048 * i && 2048 * i + 2048 <= start + len(data)) ==> decsec[i] > old(decsec[i]) @regions-done
+//@   loop 1 invariant forall i {decsec[i]} :: decsec[i] >= old(decsec[i]) && (decsec[i] != old(decsec[i]) ==> (start <= 2048 * i && 2048 * i + 2048 <= start + len(data))) @monotone-and-inside
 //@   loop 2 invariant wfEnc(e) && startSector <= i @wf
 //@   loop 2 invariant forall x {raw(data, x)} :: x < base(data) || x >= base(data) + len(data) ==> raw(data, x) == old(raw(data, x)) @frame
+//@   loop 2 invariant forall y, j {at(e.encryptedRegions, y).start, decsec[j]} :: base(e.encryptedRegions) <= y && y < base(e.encryptedRegions) + $idxouter && at(e.encryptedRegions, y).start <= j && j < at(e.encryptedRegions, y).end && (start <= 2048 * j && 2048 * j + 2048 <= start + len(data)) ==> decsec[j] > old(decsec[j]) @regions-done
+//@   loop 2 invariant forall j {decsec[j]} :: decsec[j] >= old(decsec[j]) && (decsec[j] != old(decsec[j]) ==> (start <= 2048 * j && 2048 * j + 2048 <= start + len(data))) @monotone-and-inside
+//@   loop 2 invariant forall j {decsec[j]} :: startSector <= j && j < i ==> decsec[j] > old(decsec[j]) @this-region-so-far
 //@   loop 2 decreases endSector - i
 
 //@ func deriveISOKey results(err)
@@ -1033,6 +1041,7 @@ package fs
 // ---- image-kind detection and key discovery (C11), confinement (C01), handles (C13) -----------------
 
 //@ spec hexkey(c []int) []int         -- the 16 key bytes denoted by hex text c (encoding/hex is trusted)
+//@ ghost decsec map[int]int log         -- how many times sector i has been put through the CBC decrypter (setIVForSector + CryptBlocks)
 //@ ghost hslotarr map[int]int log       -- handle opened on demand -> backing array of the fileItem that keeps it
 //@ ghost hslotidx map[int]int log       -- ... and its absolute index there
 //@ ghost recOwner map[int]int          -- directory-record array -> 2*index (+1 for Joliet) of the directory item that owns it
